@@ -5,6 +5,9 @@
  *     mode stress  : free run, nothing logged but the real-exec records and the returns           arg: -
  *     mode fork    : C10: thread 1 parks after its k-th acquisition, thread 0 forks, the child execs under an alarm
  *                    arg: k[,g]  (g = 1: the child forks a grandchild which execs as well)
+ *     mode forkrace: C10: the fork BEGINS before the library has ever been used: a prepare handler of the caller's own
+ *                    (registered first, so it is the only one this fork knows) lets thread 1 make the process's first
+ *                    wrapped call and waits until it is parked inside its first lock window; then the fork proceeds   arg: -
  * Thread i, call j executes  execve("/nonexistent/T<i>C<j>", {"T<i>C<j>", "a<i>", "<j+1 times 'x'>", NULL}, envp)
  * (odd j: execv).  The "real" exec is libsched's recorder, which fails with ENOENT.
  * Trace lines written here:  ret <thread> <call> <ret> <errno>;  fork <immediate|delayed> ;  child <done|signal N|exit N> ... */
@@ -75,6 +78,21 @@ static void on_alarm(int sig) {
     _exit(3);
 }
 
+static volatile int race_go;
+static void race_prepare(void) {
+    /* runs inside fork(), before the library under test has registered anything */
+    race_go = 1;
+    long w = 0; while (!p_parked() && w < 15000000) { usleep(200); w += 200; }
+    trf("own-prepare\t%s\n", p_parked() ? "worker-parked" : "worker-not-parked");
+}
+static void *race_worker(void *arg) {
+    (void) arg;
+    if (p_begin) p_begin(1);
+    while (!race_go) usleep(100);
+    one_call(1, 0);
+    return NULL;
+}
+
 static void child_exec_and_report(const char *who, int call, int grand) {
     /* in a forked child: one thread, no scheduling control; the exec call must complete within the alarm */
     if (p_detach) p_detach();
@@ -136,6 +154,26 @@ int main(int argc, char **argv) {
         else if (WEXITSTATUS(st)) trf("child\texit\t%d\n", WEXITSTATUS(st));
         pthread_join(th, NULL);
         /* the parent is unaffected: a later call of the forking thread completes */
+        one_call(0, 200);
+        trf("end-main\n");
+        return 0;
+    }
+
+    if (!strcmp(mode, "forkrace")) {
+        p_setup(3, TR, "-", 1, 150);
+        p_begin(0);
+        pthread_atfork(race_prepare, NULL, NULL);
+        pthread_t th; pthread_create(&th, NULL, race_worker, NULL);
+        alarm(60);
+        pid_t pid = fork();
+        if (pid == 0) child_exec_and_report("child", 100, 0);
+        int rel = p_released();
+        p_fork_returned();
+        trf("fork\t%s\n", rel ? "delayed" : "immediate");
+        int st; waitpid(pid, &st, 0);
+        if (WIFSIGNALED(st)) trf("child\tsignal\t%d\n", WTERMSIG(st));
+        else if (WEXITSTATUS(st)) trf("child\texit\t%d\n", WEXITSTATUS(st));
+        pthread_join(th, NULL);
         one_call(0, 200);
         trf("end-main\n");
         return 0;
